@@ -153,6 +153,7 @@ class Model(object):
         if not os.path.isdir(pkg):
             raise AnchorMissing('package directory %s' % pkg)
         self.modules = {}
+        self.alias_back = {}     # defining qualname -> the name the checks address it by (moved to another module, imported back)
         for fn in sorted(os.listdir(pkg)):
             if fn.endswith('.py'):
                 name = fn[:-3]
@@ -198,6 +199,7 @@ class Model(object):
         if c not in mod.classes:
             r = self.resolve_global(mod, c)
             if r and r[0] == 'class':
+                self.alias_back.setdefault(r[1].qualname, qual)
                 return r[1]
             raise AnchorMissing('class %s' % qual)
         return mod.classes[c]
@@ -214,6 +216,7 @@ class Model(object):
                 # moved to another module of the package and imported back under the same name?
                 r = self.resolve_global(mod, parts[1])
                 if r and r[0] == 'func':
+                    self.alias_back.setdefault(r[1].qualname, qual)
                     return r[1]
                 raise AnchorMissing('function %s' % qual)
             return mod.functions[parts[1]]
@@ -223,12 +226,16 @@ class Model(object):
                 if not (r and r[0] == 'class'):
                     raise AnchorMissing('class %s.%s' % (parts[0], parts[1]))
                 c = r[1]
+                self.alias_back.setdefault(c.qualname, '%s.%s' % (parts[0], parts[1]))
             else:
                 c = mod.classes[parts[1]]
             table = c.methods if kind is None else (c.setters if kind == 'setter' else c.getters)
             if parts[2] not in table:
                 raise AnchorMissing('method %s%s' % (qual, ':' + kind if kind else ''))
-            return table[parts[2]]
+            fi = table[parts[2]]
+            if fi.cls is c and c.module is not mod:
+                self.alias_back.setdefault(fi.qualname, qual)
+            return fi
         raise AnchorMissing(qual)
 
     def has_func(self, qual):
